@@ -13,6 +13,18 @@ CHECKS = {
    text="Lean theorems over all file contents: numbering+frame (C13_numbering_frame), end of file (C13_eof), idempotence (C13_idempotent; hypotheses: digits-only rule id, no line with both keys, no CR CR LF — the last is known finding D22 with a decide-proved witness), --check (C13_check_iff). "
         "Tie: util.processYaml (real code, in-process via verif hook) vs the compiled model on generated YAML files, byte-exact; renumber-tests binary on sandbox trees for check/write behaviour.",
    design="§7 C13", technique="Lean 4 proof (list induction) on a hand-written model + differential correspondence with the Go code"),
+ "C08": dict(
+   text="Lean theorems on the tree-level model Crs.Cli: C08_format_each / C08_renumber_each / C08_copyright_each (--all leaves in every file exactly what the per-file function leaves in it), C08_format_perm / C08_renumber_perm (independent of the traversal order), C08_run_ignores_globals (a run's regex does not depend on the processor stack and stash earlier runs left behind: new context and stack reset per file), C08_update_inputs_untouched + C08_update_regex_same (a successful update changes only the rules file, which is no input of any assembly: every file's regex in an --all run is the regex of a single run on the original tree). NOT proved: commutation of the rules-file splices of different rules (any order at the level of rules-file bytes). "
+        "Tie (K10): cli.updateAll / cli.formatAll — the whole tree and exit status the model predicts vs what the real binary leaves, incl. leak scenarios (stored expression recalled without being stored, definition used without being defined, flags/prefix/suffix, unclosed block; the failing file last in walk order). Oracle: --all vs single invocations in random orders on the binary (tree bytes, compare verdict lines, exit status).",
+   design="§0.3 C08", technique="Lean 4 proof on a tree-level command model (map / permutation / frame lemmas) + whole-tree correspondence with the binary + all-vs-singles oracle"),
+ "C15": dict(
+   text="Lean theorems on Crs.Cli for every tree: C15_format_paths / C15_renumber_paths / C15_copyright_paths (no file is created, deleted, renamed or reordered), C15_format_frame / C15_renumber_frame / C15_copyright_frame (every file that is not a target — `.ra` below regex-assembly; NNNNNN.yaml|.yml below tests/regression/tests; base name ending in .conf/.example — is byte-identical afterwards), C15_format_check_writes_nothing / C15_renumber_check_writes_nothing, target predicates evaluated on the decoys. Files outside the resolved root cannot be named by the modelled operations (watched by the snapshot oracle). "
+        "Tie (K10): cli.formatAll / cli.renumberAll (check and write mode) / cli.copyrightAll — predicted tree vs the binary's tree on generated CRS trees with decoys, nested directories, files the formatter fails on and files the parser panics on. Oracle: recursive snapshot (path, size, sha256, mode) of the sandbox incl. siblings of the root before and after 19 command / flag combinations x 5 ways of passing -d.",
+   design="§0.3 C15", technique="Lean 4 proof (frame theorems over all trees) on a tree-level command model + whole-tree correspondence with the binary + snapshot oracle"),
+ "C16": dict(
+   text="Lean theorems on Crs.Cli: C16_generate_loud (a failing generate prints nothing; success prints exactly the regex; the tree is untouched), C16_update_loud (a failing update leaves every file byte-identical; exit 0 means: argument parsed, assembly read, generate succeeded, exactly one rules file, operand spliced), C16_format_failure_keeps_file, C16_renumber_failure_keeps_file, C16_formatAll_ok (exit 0 of format --all means every target was formatted). Every fault class is an `.error` of generate / parseRuleId / rulesFileOf / updateRegex / formatFile in the model. Known finding D19 (--all not atomic) stated as C16_updateAll_failure_prefix_D19. "
+        "Tie (K10): cli.generate / cli.update / cli.updateAll — stdout, exit status and whole tree of the binary vs the model under each of 21 injected fault classes (first / middle / last file) and on fault-free trees. Oracle: exit status, stdout, tree snapshot on the binary.",
+   design="§0.3 C16", technique="Lean 4 proof (faults as values; loudness of each command) on a tree-level command model + stdout/exit/tree correspondence with the binary under injected faults"),
  "C09": dict(
    text="Lean theorems over all file contents: C09_idempotent (formatFile out = ok out whenever formatFile b = ok out — for every file without `\\r\\r` line ends, which is known finding D22), built from per-directive re-emission lemmas (processLine_reemit: every line the formatter writes is recognised again as the same directive with the same arguments at the same indentation, for block start/end, flags/prefix/suffix, define, include, include-except and plain lines; formatLines_reemit; processLine_good: no line break or trailing CR is invented), C09_canonical_frame (header, one empty line, body without trailing empty lines, exactly one final newline), processLine_indent / processLine_flags_col0 / processLine_none_iff (indentation bookkeeping), C09_check_iff (--check succeeds iff formatting is the identity and the lint is silent) and C09_error_writes_nothing. "
         "Tie: processLine, processFile (real code via hooks) and every directive pattern of regex/definitions.go alone vs the compiled model on pattern-directed line material, byte-exact; format / format --check binary on sandbox trees (format twice, format then check, headers, trailing lines, CRLF).",
